@@ -56,7 +56,9 @@ Chains == UNION {[1..k -> Steps] : k \in 1..MaxChain}
 \* on maps only keys / default / first / merge with itself are applied directly (what join, last, sort,
 \* reverse, slice do to a map is not stated by any property); after keys the value is a list
 MapFirstSteps == {"keys", "default", "first", "mergeself"}
-ChainOK(d, fs) == IsMapData(d) => (fs[1] \in MapFirstSteps /\ (fs[1] \in {"default", "mergeself"} => (Len(fs) = 1 \/ fs[2] \in MapFirstSteps)))
+RECURSIVE MapChainOK(_)
+MapChainOK(fs) == fs = <<>> \/ (Head(fs) \in MapFirstSteps /\ (Head(fs) \in {"default", "mergeself"} => MapChainOK(Tail(fs))))
+ChainOK(d, fs) == IsMapData(d) => MapChainOK(fs)
 ChainCases == {[fam |-> "chain", d |-> d, fs |-> fs] : d \in DOMAIN Data, fs \in {q \in Chains : TRUE}}
 ChainProg(c) == <<D(ChainExpr(c.fs, X)), T(<<124>>), D(X)>>
 \* family 2: an intermediate value is observed again after a later filter was applied to it
